@@ -58,6 +58,20 @@ func F64(x float64) []int {
 	return []int{int(b >> 42), int((b >> 21) & 0x1FFFFF), int(b & 0x1FFFFF)}
 }
 
+// NonFinite32 / NaN32: classes of an int32 view of a float32 (projection helpers: the
+// specification classifies the logged bit patterns itself wherever they are logged).
+func NonFinite32(v int) bool { return uint32(int32(v))&0x7F800000 == 0x7F800000 }
+func NaN32(v int) bool       { return NonFinite32(v) && uint32(int32(v))&0x007FFFFF != 0 }
+
+// CanonNaN: sign and payload of a NaN are not part of "the float32 image" of a value;
+// fingerprints (big meshes only) are taken over images with every NaN replaced by one.
+func CanonNaN(v int) int {
+	if NaN32(v) {
+		return 0x7FC00000
+	}
+	return v
+}
+
 func fingerprint(f func(emit func(int))) []int {
 	h := fnv.New64a()
 	var b [4]byte
@@ -77,7 +91,8 @@ type SAttr struct {
 	Data   [][]int `json:"data"`   // float32 image (int32 bit patterns) per vertex; [] when big
 	IData  [][]int `json:"idata"`  // integer image, Joint only
 	IExact bool    `json:"iexact"` // every Joint component is an integer in 0..255
-	Cfp    []int   `json:"cfp"`    // big only: fingerprint of the corner view of Data
+	Nnf    int     `json:"nnf"`    // components whose float32 image is NaN or +-Inf (all vertices)
+	Cfp    []int   `json:"cfp"`    // big only: fingerprint of the corner view of Data (NaNs canonical)
 	ICfp   []int   `json:"icfp"`   // big only: same for IData
 }
 
@@ -174,6 +189,9 @@ func projectMesh(m *modeling.Mesh) SMesh {
 			row := make([]int, len(vals))
 			for c, x := range vals {
 				row[c] = F32(x)
+				if NonFinite32(row[c]) {
+					a.Nnf++
+				}
 			}
 			data[i] = row
 			if isJoint {
@@ -189,11 +207,14 @@ func projectMesh(m *modeling.Mesh) SMesh {
 			}
 		}
 		if p.Big {
-			corner := func(src [][]int) []int {
+			corner := func(src [][]int, canon bool) []int {
 				return fingerprint(func(emit func(int)) {
 					for _, k := range raw {
 						if k >= 0 && k < len(src) {
 							for _, v := range src[k] {
+								if canon {
+									v = CanonNaN(v)
+								}
 								emit(v)
 							}
 						} else {
@@ -202,9 +223,9 @@ func projectMesh(m *modeling.Mesh) SMesh {
 					}
 				})
 			}
-			a.Cfp = corner(data)
+			a.Cfp = corner(data, true)
 			if isJoint {
-				a.ICfp = corner(idata)
+				a.ICfp = corner(idata, false)
 			}
 		} else {
 			a.Data = data
